@@ -89,6 +89,96 @@ theorem rejected_add_stable (call : String → List String → Option Atom) (tbl
     (e.addPolicy sec pt rule).1.enforce call tbl req = e.enforce call tbl req :=
   C10.enforce_depends_on_core e _ (C10.rejected_add e sec pt rule has hr).1 call tbl req
 
+/-- … and for a call that the model itself reports as "no change" (auto-save off): the enforcer's decision
+core is *identical* afterwards, so the hypothesis holds for every oracle that reads only the core -/
+def KeysUnique (s : Store) : Prop :=
+  ∀ sec (d1 d2 : PolDef), d1 ∈ s.sec sec → d2 ∈ s.sec sec → d1.key = d2.key → d1 = d2
+
+theorem updDef_self (ds : List PolDef) (pt : String) (f : PolDef → PolDef)
+    (h : ∀ d ∈ ds, d.key = pt → f d = d) : updDef ds pt f = ds := by
+  unfold updDef
+  induction ds with
+  | nil => rfl
+  | cons d ds ih =>
+    simp only [List.map_cons]
+    rw [ih (fun x hx => h x (List.mem_cons_of_mem _ hx))]
+    by_cases hk : d.key = pt
+    · simp [hk, h d (by simp) hk]
+    · simp [hk]
+
+theorem setSec_self (s : Store) (sec : String) : s.setSec sec (s.sec sec) = s := by
+  unfold Store.setSec Store.sec
+  by_cases h1 : sec = "p"
+  · simp [h1]
+  · by_cases h2 : sec = "g"
+    · simp [h2]
+    · simp [h1, h2]
+
+theorem find_mem (s : Store) (sec pt : String) (d : PolDef) (h : s.find sec pt = some d) : d ∈ s.sec sec ∧ d.key = pt := by
+  unfold Store.find at h
+  exact ⟨List.mem_of_find?_eq_some h, by simpa using List.find?_some h⟩
+
+theorem linkUpdate_snd (x : Enforcer) (sec pt : String) (ins : Bool) (rules : List Rule) :
+    (x.linkUpdate true sec pt ins rules (.bool true)).2 ≠ .bool false := by
+  unfold Enforcer.linkUpdate
+  split
+  · simp
+  · split
+    · simp
+    · split <;> simp
+
+theorem nochange_add_sameCore (e : Enforcer) (sec pt : String) (rule : Rule) (hs : e.autoSave = false)
+    (hu : KeysUnique e.store) (h : (e.addPolicy sec pt rule).2 = .bool false) :
+    C10.sameCore e (e.addPolicy sec pt rule).1 := by
+  unfold Enforcer.addPolicy at h ⊢
+  simp only [hs, Bool.false_eq_true, if_false] at h ⊢
+  unfold Store.addPolicy at h ⊢
+  cases hf : e.store.find sec pt with
+  | none =>
+    simp only [Bool.false_and, Bool.false_eq_true, if_false]
+    unfold Enforcer.linkUpdate
+    simp [C10.sameCore, hs]
+  | some d =>
+    simp only [hf] at h ⊢
+    by_cases hin : rule ∈ d.policy
+    · have hadd : OrdSet.add d.policy rule = (d.policy, false) := by simp [OrdSet.add, hin]
+      obtain ⟨hm, hk⟩ := find_mem e.store sec pt d hf
+      have hstore : e.store.update sec pt (fun d => { d with policy := (OrdSet.add d.policy rule).1 }) = e.store := by
+        unfold Store.update
+        rw [updDef_self, setSec_self]
+        intro d' hd' hk'
+        have : d' = d := hu sec d' d hd' hm (by rw [hk', hk])
+        subst this
+        simp [hadd]
+      simp only [hadd, Bool.false_and, Bool.false_eq_true, if_false]
+      unfold Enforcer.linkUpdate
+      simp only [Bool.not_false, Bool.true_or, if_true]
+      exact ⟨hstore, rfl, rfl, rfl, rfl, rfl, hs.symm, rfl⟩
+    · exfalso
+      have hadd : OrdSet.add d.policy rule = (d.policy ++ [rule], true) := by simp [OrdSet.add, hin]
+      simp only [hadd, Bool.true_and] at h
+      split at h <;> exact linkUpdate_snd _ _ _ _ _ h
+
+/-- … so a management call that does not fail keeps the cache sound for every oracle that reads only the
+decision core: the cache is cleared when the call reports a change, and the core is identical when it
+reports none -/
+theorem mgmt_add_sound (oracle : Oracle) (horacle : ∀ e e', C10.sameCore e e' → ∀ k, oracle e' k = oracle e k)
+    (c : Cached) (hs : CacheSound oracle c) (sec pt : String) (rule : Rule) (hsave : c.inner.autoSave = false)
+    (hu : KeysUnique c.inner.store) (hres : ∃ b, (c.inner.addPolicy sec pt rule).2 = .bool b) :
+    CacheSound oracle (c.mgmt (fun e => e.addPolicy sec pt rule) resChanged).1 := by
+  apply mgmt_sound oracle c _ hs
+  intro hc k
+  apply horacle
+  apply nochange_add_sameCore c.inner sec pt rule hsave hu
+  obtain ⟨b, hb⟩ := hres
+  simp only [hb, resChanged] at hc
+  rw [hb, hc]
+
+/-- the plain-request oracle is such an oracle (C10) -/
+theorem enforce_oracle_core (call : String → List String → Option Atom) (tbl : String → Option Expr) :
+    ∀ e e', C10.sameCore e e' → ∀ (req : List Val), e'.enforce call tbl req = e.enforce call tbl req :=
+  fun e e' h req => C10.enforce_depends_on_core e e' h call tbl req
+
 /-- the cache key separates a plain request from a context-qualified one with the same
 values, and two contexts that differ in any section name (regression for the repaired key) -/
 example : (([] : List Val), "") ≠ (([] : List Val), "ctx:r2-p2-e2-m2") := by decide
